@@ -144,7 +144,7 @@ class Case:
         for e in sorted(entries, key=lambda e: self.raw_name(e["n"])):
             k = e["k"]
             if k["t"] == "d":
-                out += self.flat_files(k["ch"], tuple(prefix) + tuple(e["n"]))
+                out += self.flat_files(k["ch"], tuple(prefix) if e["n"] == [""] else tuple(prefix) + tuple(e["n"]))
             elif k["t"] == "f":
                 out.append((tuple(prefix) + tuple(e["n"]), k))
         return out
@@ -271,10 +271,11 @@ class Case:
                         out[pth]["perm"] = oct(perm)
 
         def walk_git(d, path):
-            for name in (b"config", b"hooks"):
-                full = os.path.join(d, name)
-                if not os.path.lexists(full):
+            # the canaries (config, hooks/) and anything that is not part of a repository's own files
+            for name in sorted(os.listdir(d)):
+                if os.fsdecode(name) in GIT_LEGIT or name in (b"branches", b"description", b"info"):
                     continue
+                full = os.path.join(d, name)
                 pth = path + (comp_token(name),)
                 st = os.lstat(full)
                 if name == b"config" and stat.S_ISREG(st.st_mode):
@@ -288,12 +289,16 @@ class Case:
                 elif stat.S_ISLNK(st.st_mode):
                     out[pth] = {"t": "l", "to": self.link_comps(os.readlink(full))}
                 else:
-                    out[pth] = {"t": "f", "c": "?", "x": False}
+                    with open(full, "rb") as f:
+                        data = f.read()
+                    out[pth] = {"t": "f", "c": RCONTENT.get(data, "?" + data[:16].hex()), "x": bool(st.st_mode & 0o100)}
 
         walk(topb, ())
         return out
 
-    def protected(self, include_config=True):
+    STAMP = 946684800 * 10**9      # 2000-01-01: protected files get this mtime before an operation
+
+    def protected(self, include_config=True, stamp=False):
         """Everything under <case> except the work tree proper and the files below .git that the
         operations legitimately write: {relative path -> (type, perm, content|target, ino, mtime)}."""
         snap = {}
@@ -327,8 +332,14 @@ class Case:
                 else:
                     with open(full, "rb") as f:
                         data = f.read()
+                    mt = st.st_mtime_ns
+                    if stamp and mt != self.STAMP:
+                        # the clock of tmpfs is coarse: a rewrite with identical content within the same
+                        # tick would keep the mtime; an old, fixed mtime makes every write visible
+                        os.utime(full, ns=(self.STAMP, self.STAMP))
+                        mt = self.STAMP
                     snap[rel] = ("f", stat.S_IMODE(st.st_mode), data.hex() if len(data) < 64 else hash(data),
-                                 st.st_ino, st.st_mtime_ns)
+                                 st.st_ino, mt)
 
         rec(rootb, False)
         return snap
